@@ -128,7 +128,7 @@ def beValue (bs : List UInt8) : Nat := leValue bs.reverse
 structure Src where
   bytes : List UInt8
   pos : Nat
-  deriving Repr
+  deriving Repr, DecidableEq, Inhabited
 
 /-- `reader.seek(SeekFrom::End(off))` — negative resulting positions are an `InvalidInput` error. -/
 @[inline] def Src.seekEnd (s : Src) (off : Int) : Except IoErr Nat × Src :=
@@ -158,6 +158,24 @@ structure Src where
 /-- `reader.take(n)` followed by `read_to_end`: at most `n` bytes, fewer when the source ends first -/
 @[inline] def Src.readUpTo (s : Src) (n : Nat) : List UInt8 × Src :=
   ((s.bytes.drop s.pos).take n, { s with pos := min (s.pos + n) (max s.pos s.bytes.length) })
+
+/-- `opt.as_mut().map(f)` with `f : &mut T → U`: `f` runs on the content, which is written back -/
+@[inline] def optMapMut {α β : Type} (o : Option α) (f : α → M (β × α)) : M (Option β × Option α) :=
+  match o with
+  | some a => do let (b, a') ← f a; pure (some b, some a')
+  | none => pure (none, none)
+
+/-- `opt.map(f)` with `f` a translated (possibly panicking) function -/
+@[inline] def optMapM {α β : Type} (o : Option α) (f : α → M β) : M (Option β) :=
+  match o with
+  | some a => do let b ← f a; pure (some b)
+  | none => pure none
+
+/-- `opt.and_then(f)` with `f` a translated (possibly panicking) function -/
+@[inline] def optBindM {α β : Type} (o : Option α) (f : α → M (Option β)) : M (Option β) :=
+  match o with
+  | some a => f a
+  | none => pure none
 
 /-- the result of the external codec: `none` is `Err(_)` -/
 @[inline] def liftDecompress (r : Option (List UInt8)) : M (List UInt8) :=
